@@ -318,3 +318,71 @@ Section Shutdown.
     - simpl. repeat split; try lia.
   Qed.
 End Shutdown.
+
+(* ====================================================================== *)
+(* a whole swap round                                                     *)
+(* ====================================================================== *)
+(* The update messages of one round go to exactly the members of the accepted
+   pairs, one message each (pairs being disjoint).  A worker's chain changes only
+   when it handles a message (definition of `step`), so chains outside the accepted
+   pairs are untouched by the round, and every chain in an accepted pair handles
+   exactly one UpdatePosition, built by swap_pair_msgs from the positions fetched
+   at the start of the round. *)
+Lemma swap_pair_msgs_targets : forall betas data i j,
+  map fst (swap_pair_msgs betas data i j) = [i; j].
+Proof.
+  intros betas data i j. unfold swap_pair_msgs.
+  destruct (nth i data ([], 0%Q)) as [xi pri]. destruct (nth j data ([], 0%Q)) as [xj prj].
+  reflexivity.
+Qed.
+
+Lemma swap_pairs_round : forall betas data pairs st ms st',
+  swap_pairs betas data pairs st = (ms, st') ->
+  exists acc, cs_succ st' = cs_succ st ++ acc /\ incl acc pairs /\
+              map fst ms = flatten acc /\
+              (NoDup (flatten pairs) -> NoDup (flatten acc)) /\
+              cs_att st' = cs_att st /\ cs_snaps st' = cs_snaps st.
+Proof.
+  intros betas data pairs. induction pairs as [| [i j] rest IH]; intros st ms st' H; simpl in H.
+  - inversion H; subst. exists []. rewrite app_nil_r.
+    repeat split; try reflexivity. intros x []. intros _; constructor.
+  - destruct (swap_decide _ _ _ _ _) as [[|] |] eqn:Hd.
+    + destruct (swap_pairs betas data rest _) as [ms1 st3] eqn:Hr in H.
+      inversion H; subst. destruct (IH _ _ _ Hr) as [acc [Hs [Hi [Hm [Hn [Ha Hsn]]]]]].
+      simpl in Hs, Ha, Hsn.
+      exists ((i, j) :: acc). split; [rewrite Hs, <- app_assoc; reflexivity |].
+      split; [intros x [Hx | Hx]; [left; assumption | right; apply Hi; assumption] |].
+      split; [rewrite map_app, swap_pair_msgs_targets, Hm; reflexivity |].
+      split; [| split; assumption].
+      intros Hnd. change (flatten ((i, j) :: rest)) with (i :: j :: flatten rest) in Hnd.
+      change (flatten ((i, j) :: acc)) with (i :: j :: flatten acc).
+      inversion Hnd as [| ? ? Hni Hnd1]; subst. inversion Hnd1 as [| ? ? Hnj Hnd2]; subst.
+      assert (Hsub : forall x, In x (flatten acc) -> In x (flatten rest)).
+      { intros x Hx. unfold flatten in *. apply in_flat_map in Hx. destruct Hx as [p [Hp Hx]].
+        apply in_flat_map. exists p. split; [apply Hi; assumption | assumption]. }
+      constructor.
+      * intros [He | Hx]; [apply Hni; left; assumption | apply Hni; right; apply Hsub; assumption].
+      * constructor; [intros Hx; apply Hnj; apply Hsub; assumption | apply Hn; assumption].
+    + destruct (IH _ _ _ H) as [acc [Hs [Hi [Hm [Hn [Ha Hsn]]]]]]. simpl in Hs, Ha, Hsn.
+      exists acc. split; [assumption |]. split; [intros x Hx; right; apply Hi; assumption |].
+      split; [assumption |]. split; [| split; assumption].
+      intros Hnd. apply Hn. change (flatten ((i, j) :: rest)) with (i :: j :: flatten rest) in Hnd.
+      inversion Hnd as [| ? ? _ Hnd1]; subst. inversion Hnd1; subst. assumption.
+    + destruct (IH _ _ _ H) as [acc [Hs [Hi [Hm [Hn [Ha Hsn]]]]]]. simpl in Hs, Ha, Hsn.
+      exists acc. split; [assumption |]. split; [intros x Hx; right; apply Hi; assumption |].
+      split; [assumption |]. split; [| split; assumption].
+      intros Hnd. apply Hn. change (flatten ((i, j) :: rest)) with (i :: j :: flatten rest) in Hnd.
+      inversion Hnd as [| ? ? _ Hnd1]; subst. inversion Hnd1; subst. assumption.
+Qed.
+
+Theorem swap_round_messages : forall betas data pairs st ms st',
+  NoDup (flatten pairs) ->
+  swap_pairs betas data pairs st = (ms, st') ->
+  NoDup (map fst ms) /\
+  exists acc, cs_succ st' = cs_succ st ++ acc /\ incl acc pairs /\ map fst ms = flatten acc.
+Proof.
+  intros betas data pairs st ms st' Hnd H.
+  destruct (swap_pairs_round betas data pairs st ms st' H) as [acc [Hs [Hi [Hm [Hn _]]]]].
+  split; [rewrite Hm; apply Hn; assumption |].
+  exists acc. repeat split; assumption.
+Qed.
